@@ -152,6 +152,14 @@ def gen_case(rng, k):
                         pieces.append("{%s%s}" % (al, spec))
                         c.notes.append("alias-ident")
                     args.append((al, idents[j]))
+                elif how < 0.95 and kind == "named" and not idents[j].startswith("r#") \
+                        and not any(a[0] == idents[j] for a in args):
+                    # a named argument that shadows the field name with an unrelated expression: the field is NOT formatted
+                    pieces.append("{%s%s}" % (F.unraw(idents[j]), ":" + LETTER[trait] if LETTER[trait] else ""))
+                    args.append((idents[j], "7u8"))
+                    c.notes.append("alias-shadows-field")
+                    pieces.append(rng.choice(["", " ", "-"]))
+                    continue
                 else:
                     # an expression argument over a generic field needs the user's own bound
                     pieces.append("{%s}" % spec)
